@@ -32,6 +32,9 @@ type SSHServer struct {
 	HostKey ssh.Signer
 	// Accept decides whether a credential is good. Called under the server's lock.
 	Accept func(ev SSHAuthEvent) bool
+	// KeyThenPassword selects the two-step policy: only publickey is available at first; an accepted
+	// key is a partial success after which only password is available (and required).
+	KeyThenPassword bool
 	// Questions is the number of keyboard-interactive prompts (default 1).
 	Questions int
 	// Rand is the randomness used for key generation (nil = crypto/rand).
@@ -177,6 +180,16 @@ func (s *SSHServer) config() *ssh.ServerConfig {
 			s.Methods = append(s.Methods, method)
 			s.mu.Unlock()
 		},
+	}
+	if s.KeyThenPassword {
+		pwcb := cfg.PasswordCallback
+		cfg.PasswordCallback, cfg.KeyboardInteractiveCallback = nil, nil
+		cfg.PublicKeyCallback = func(c ssh.ConnMetadata, key ssh.PublicKey) (*ssh.Permissions, error) {
+			if s.record(SSHAuthEvent{User: c.User(), Method: "publickey", Cred: key.Marshal()}) {
+				return nil, &ssh.PartialSuccessError{Next: ssh.ServerAuthCallbacks{PasswordCallback: pwcb}}
+			}
+			return nil, deny
+		}
 	}
 	cfg.AddHostKey(s.HostKey)
 	return cfg
